@@ -238,6 +238,23 @@ def _qc_cases(args):
                         ev0, ev1 = np.linalg.eigvalsh((H0 + H0.T) / 2), np.linalg.eigvalsh((got + got.conj().T) / 2)
                         if np.linalg.norm(ev0 - ev1) > 1e-8 * (np.linalg.norm(ev0) + 1):
                             out["viol"].append(("C17:swap:spectrum", "spectrum changed by the site exchange", detail))
+                        # the exchanged operator must remain a usable operator: applied to a state of the exchanged model
+                        try:
+                            from renormalizer.mps import Mps
+                            from .. import states as st
+                            mdl = mpo.model
+                            reseed_global(seed, "c17-apply", k, str(seq))
+                            try:
+                                psi = Mps.random(mdl, np.array([1, 1]), 4, 1.0)
+                            except FloatingPointError:
+                                continue          # the sector cannot be populated on this tiny model: no state to apply to
+                            phi = mpo.apply(psi)
+                            v = st.dense(psi).reshape(-1)
+                            d_ = np.linalg.norm(st.dense(phi).reshape(-1) - got @ v)
+                            if d_ > 1e-9 * (np.linalg.norm(got @ v) + 1):
+                                out["viol"].append(("C17:swap:apply-after-swap:value", f"(exchanged operator).apply(psi) differs from the dense product by {d_:.2e}", detail))
+                        except Exception as ex:
+                            out["viol"].append((f"C17:swap:apply-after-swap:raises:{type(ex).__name__}", f"the operator returned by try_swap_site cannot be applied to a state: {type(ex).__name__}: {str(ex)[:200]}", detail))
     return out
 
 
